@@ -333,6 +333,45 @@ main()
 	}
 }
 
+// c19ZeroArity: natives without arguments called as the very first thing a fresh VM does (the run
+// stack is empty and has no spare capacity then), in every statement shape, for every form that
+// can have no arguments
+func (c *Ctx) c19ZeroArity() {
+	shapes := []string{"x := %s(); x", "%s() + 0", "y := []int{%s()}; y[0]", "println(%s())", "if %s() > 0 { println(\"pos\") }", "func f() int { return %s() }; f()"}
+	forms := map[string]func(calls *int) goat.Value{
+		"f01": func(calls *int) goat.Value { return goat.NewFunc(0, 1, func(vm *goat.VM) goat.Value { *calls++; return goat.Int(41) }) },
+		"fN1": func(calls *int) goat.Value {
+			return goat.NewFunc(0, 1, func(vm *goat.VM, args []goat.Value) goat.Value { *calls += 1 + len(args); return goat.Int(41) })
+		},
+		"fNM": func(calls *int) goat.Value {
+			return goat.NewFunc(0, 1, func(vm *goat.VM, args []goat.Value) []goat.Value { *calls += 1 + len(args); return []goat.Value{goat.Int(41)} })
+		},
+		"fVar": func(calls *int) goat.Value {
+			return goat.NewFunc(1, 1, func(vm *goat.VM, args []goat.Value, vargs ...goat.Value) []goat.Value {
+				*calls += 1 + len(args) + len(vargs)
+				return []goat.Value{goat.Int(41)}
+			})
+		},
+	}
+	for _, form := range sortedKeys(forms) {
+		for _, shape := range shapes {
+			var out bytes.Buffer
+			vm := goat.New(goat.WithStdout(&out))
+			calls := 0
+			vm.Set("main.nat0", forms[form](&calls))
+			src := fmt.Sprintf(shape, "nat0")
+			rets, err := vm.Eval(fstest.MapFS{}, "main", src)
+			c.Rep.Oracle["zero-arity-first-call"]++
+			got := c19Show(rets, err) + " out=" + strings.TrimSpace(out.String()) + fmt.Sprint(" calls=", calls)
+			want := map[string]string{"x := %s(); x": "ok 41 out=", "%s() + 0": "ok 41 out=", "y := []int{%s()}; y[0]": "ok 41 out=",
+				"println(%s())": "ok out=41", "if %s() > 0 { println(\"pos\") }": "ok out=pos", "func f() int { return %s() }; f()": "ok out="}[shape] + " calls=1"
+			if got != want {
+				c.Rep.Violate(Violation{Kind: "oracle", Cut: "zero-arity-first-call", Input: form + ": " + src, Impl: got + fmt.Sprint(" ", err), Oracle: want})
+			}
+		}
+	}
+}
+
 func (c *Ctx) c19RoundTrips(n int) {
 	r := c.RNG
 	bad := func(what string, in, out any) {
@@ -440,6 +479,7 @@ func runC19(c *Ctx) error {
 		}
 	}
 	c.c19Scripts(ns)
+	c.c19ZeroArity()
 	c.c19RoundTrips(nr)
 	return nil
 }
